@@ -410,21 +410,9 @@ def run(rep: Report, prog: Program, tier: str) -> None:
     else:
         rep.fail(mk_finding(prog, PROP, "C02-KICK", ss, est[0] if est else ss.node, "entering ESTABLISHED does not start _data_channel_flush(): messages queued while connecting stay queued",
                             construct="ESTABLISHED flush"))
-    # reset response re-kicks the reconfig queue
-    rr = meth("_receive_reconfig_param")
-    clears = [n for n in walk_no_nested(rr.node) if isinstance(n, ast.Assign) and unparse(n.targets[0]) == "self._reconfig_request" and getattr(n.value, "value", 0) is None]
-    if not clears:
-        raise AnalysisError("_receive_reconfig_param: completion of the pending request not found")
-    pmr = parents_of(rr.node)
-    okr = True
-    for c in clears:
-        blk, idx = block_of(c, pmr)
-        if not any(x for s in blk[idx + 1:] for x in ast.walk(s) if isinstance(x, ast.Call) and ev_sack(x, rr) == ["reconfig"]):
-            okr = False
-            rep.fail(mk_finding(prog, PROP, "C02-KICK", rr, c, "the pending stream-reset request is completed without restarting _transmit_reconfig(): further queued resets never go out",
-                                construct="reset response re-kick"))
-    if okr:
-        rep.ok("C02-KICK", "_receive_reconfig_param: completing a request restarts _transmit_reconfig", sample=f"{len(clears)} site(s)")
+    # reset response re-kicks the reconfig queue (shared with C13)
+    from .common import reset_rekick_rule
+    reset_rekick_rule(rep, prog, PROP, "C02-KICK")
     # T3 expiry kick is part of C02-T3
 
     # ================================================================ C02-CWND
